@@ -64,6 +64,31 @@ F2 ==
                  [n \in UsedGroups(b) |-> IF n = "g0" THEN G(ta) ELSE G(tb)],
                  {B("inside_in", "inside", "in")}, {}, {})
 
+(* F2S: object-groups of type `service … tcp` as the service of an ACE, mixed with a network group: *)
+(* renamed, shared, changed in place, left-over; a network and a service group with equal names     *)
+(* never occur (the names are disjoint by construction)                                             *)
+SContents == {{"tcp81"}, {"tcp82"}, {"tcp81", "tcp82"}}
+SG(m) == [typ |-> "service-tcp", m |-> m]
+SLines(s1, s2, g) == {
+  Ace("permit", s1, T("host", "h1"), T("host", "h3")),
+  Ace("permit", s1, T("any", ""), T("grp", g)),
+  Ace("permit", s2, T("net", "n12"), T("any", "")),
+  Ace("permit", "tcp80", T("host", "h4"), T("any", "")) }
+UsedSvcGroups(s) == {s[i].svc : i \in DOMAIN s} \cap {"sg0", "sg1", "sg0-DRC-0", "sg1-DRC-0"}
+F2S ==
+  \E a \in InjSeqs(SLines("sg0-DRC-0", "sg1-DRC-0", "g0-DRC-0"), MaxLen), b \in InjSeqs(SLines("sg0", "sg1", "g0"), MaxLen),
+     da, db, ta, tb \in SContents, ga, gb \in {{"h1"}, {"h1", "h2"}} :
+    /\ (("sg0" \notin UsedSvcGroups(b)) => ta = {"tcp81"}) /\ (("sg1" \notin UsedSvcGroups(b)) => tb = {"tcp81"})
+    /\ (("g0" \notin UsedGroups(b)) => gb = {"h1"})
+    /\ dev = Cfg([inside_in |-> a],
+                 [n \in {"sg0-DRC-0", "sg1-DRC-0", "g0-DRC-0"} |->
+                    IF n = "sg0-DRC-0" THEN SG(da) ELSE IF n = "sg1-DRC-0" THEN SG(db) ELSE G(ga)],
+                 {B("inside_in", "inside", "in")}, {}, {"inside"})
+    /\ tgt = Cfg([inside_in |-> b],
+                 [n \in UsedSvcGroups(b) \cup UsedGroups(b) |->
+                    IF n = "sg0" THEN SG(ta) ELSE IF n = "sg1" THEN SG(tb) ELSE G(gb)],
+                 {B("inside_in", "inside", "in")}, {}, {})
+
 -----------------------------------------------------------------------------
 (* F3: sharing of ACLs between interfaces, directions, global *)
 Short == {<<Ace("permit", "ip", T("host", "h1"), T("host", "h3"))>>,
@@ -171,7 +196,7 @@ F1L ==
     /\ dev = Cfg([inside_in |-> a], NoFn, {B("inside_in", "inside", "in")}, {}, {"inside"})
     /\ tgt = Cfg([inside_in |-> b], NoFn, {B("inside_in", "inside", "in")}, {}, {})
 
-Init == CASE Fam = "M2L" -> M2L [] Fam = "F1L" -> F1L [] Fam = "M1" -> M1 [] Fam = "F9" -> F9 [] Fam = "F1" -> F1 [] Fam = "F2" -> F2 [] Fam = "F3" -> F3 [] Fam = "F4" -> F4 [] Fam = "F7" -> F7
+Init == CASE Fam = "F2S" -> F2S [] Fam = "M2L" -> M2L [] Fam = "F1L" -> F1L [] Fam = "M1" -> M1 [] Fam = "F9" -> F9 [] Fam = "F1" -> F1 [] Fam = "F2" -> F2 [] Fam = "F3" -> F3 [] Fam = "F4" -> F4 [] Fam = "F7" -> F7
 Next == UNCHANGED <<dev, tgt>>
 
 \* non-vacuity of C16: the input offers several equally good matches
